@@ -71,7 +71,7 @@ func topKey(fn *ssa.Function) string {
 	return funcKey(fn)
 }
 
-func runStructural(id string, prog *Program, specs *SpecSet) extraResult {
+func runStructural(id string, prog *Program, specs *SpecSet, known *KnownFile) extraResult {
 	res := extraResult{bySolver: map[string]int{}}
 	for _, st := range specs.Structs {
 		if st.Property != id {
@@ -230,6 +230,36 @@ func runStructural(id string, prog *Program, specs *SpecSet) extraResult {
 					}
 				}
 			}
+		case "mustcall":
+			// F's body calls every listed function (directly): an encoder that never
+			// reads a component of its input cannot make its output depend on it.
+			// The subject may carry a "#label" suffix to split one function's
+			// obligations into independently named groups.
+			subj := st.Subject
+			if i := strings.Index(subj, "#"); i >= 0 {
+				subj = subj[:i]
+			}
+			start := prog.lookupFunc(st.PkgPath, subj)
+			if start == nil {
+				ok = false
+				offenders = append(offenders, "function not found: "+subj)
+				break
+			}
+			called := map[string]bool{}
+			for _, b := range start.Blocks {
+				for _, in := range b.Instrs {
+					if ci, isCall := in.(ssa.CallInstruction); isCall {
+						if callee := ci.Common().StaticCallee(); callee != nil {
+							called[funcKey(callee)] = true
+						}
+					}
+				}
+			}
+			for _, it := range st.Items {
+				if !called[it] {
+					offenders = append(offenders, "never calls "+it)
+				}
+			}
 		case "nocall":
 			start := prog.lookupFunc(st.PkgPath, st.Subject)
 			if start == nil {
@@ -281,6 +311,22 @@ func runStructural(id string, prog *Program, specs *SpecSet) extraResult {
 		} else {
 			sort.Strings(offenders)
 			offenders = dedup(offenders)
+			if known != nil {
+				kf := false
+				for _, k := range known.Findings {
+					if k.Property == id && k.Obligation == name && k.Witness == strings.Join(offenders, "; ") {
+						kf = true
+						fmt.Printf("KNOWN-FINDING: property=%s %s (%s)\n", id, k.What, name)
+					}
+				}
+				if kf {
+					r.Status, r.Result = "known-finding", "fails: "+strings.Join(offenders, "; ")
+					res.known++
+					res.n--
+					res.reports = append(res.reports, r)
+					continue
+				}
+			}
 			r.Status, r.Result = "VIOLATION", "fails: "+strings.Join(offenders, "; ")
 			res.violations++
 			dir := filepath.Join(verifDir(), "replays", id, smtIdent(strings.ReplaceAll(name, "/", "__")))
